@@ -441,3 +441,52 @@ def ev_mask_table(top):
     sp = load_repo()
     res = [sp.util.generate_mask(m) for m in range(1, top + 1)]
     return {"op": "mask_table", "masks": [small(r[0]) for r in res], "nbytes": [small(r[1]) for r in res], "w": max(1, top // 100)}
+
+
+def ev_misuse(what, f):
+    """a call that misuses the API (wrong types, elements of another group): it must raise"""
+    try:
+        f()
+        raised = 0
+    except Exception:
+        raised = 1
+    return {"op": "misuse", "what": what, "raised": raised}
+
+
+def misuse_events(uni, gname, other):
+    G, H = uni.group(gname), uni.group(other)
+    B = G.Base
+    evs = [ev_misuse("%s: add(bytes)" % gname, lambda: B.add(b"x")),
+           ev_misuse("%s: add(int)" % gname, lambda: B.add(5)),
+           ev_misuse("%s: add(None)" % gname, lambda: B.add(None)),
+           ev_misuse("%s: scalarmult(element)" % gname, lambda: B.scalarmult(B)),
+           ev_misuse("%s: scalarmult(bytes)" % gname, lambda: B.scalarmult(b"\x02")),
+           ev_misuse("%s: scalarmult(1.5)" % gname, lambda: B.scalarmult(1.5)),
+           ev_misuse("%s: bytes_to_element(str)" % gname, lambda: G.bytes_to_element("00")),
+           ev_misuse("%s: password_to_scalar(str)" % gname, lambda: G.password_to_scalar("pw")),
+           ev_misuse("%s: arbitrary_element(str)" % gname, lambda: G.arbitrary_element("seed")),
+           ev_misuse("bytes_to_number(str)", lambda: load_repo().util.bytes_to_number("00"))]
+    if type(G.Base) is not type(H.Base) or getattr(G.Base, "_group", None) is not getattr(H.Base, "_group", 0):
+        evs.append(ev_misuse("%s + element of %s" % (gname, other), lambda: B.add(H.Base).to_bytes()))
+    e1, e2 = B.scalarmult(5), B.scalarmult(2).add(B.scalarmult(3))
+    try:
+        same = 1 if (e1 == e2 and hash(e1) == hash(e2)) else 0
+    except TypeError:                      # unhashable elements cannot violate hash consistency
+        same = 1
+    evs.append({"op": "hash_eq", "grp": gname, "same": same})
+    evs.append(ev_misuse("%s: element == 5 is True" % gname, lambda: (_ for _ in ()).throw(ValueError()) if not (B == 5) else None))
+    return evs
+
+
+def ev_clamp(uni, gname, b):
+    basic = uni.basic[gname]
+    return {"op": "clamp", "grp": gname, "b": hx(b), "out": _val(lambda: numhex(basic.bytes_to_clamped_scalar(b)))}
+
+
+def ev_mixed_add(uni, gname, k, u, order):
+    basic = uni.basic[gname]
+    G = uni.group(gname)
+    P = G.Base.scalarmult(k)
+    U = _upoint(basic, u)
+    return {"op": "mixed_add", "grp": gname, "k": numhex(k), "u": u, "order": order,
+            "out": _uout((lambda: P.add(U)) if order == 0 else (lambda: U.add(P))), "w": 2}
